@@ -75,6 +75,7 @@ EPOCHS = {}    # (tag, target) -> epoch, written by the harness
 RUNLOG = []    # (tag, target, [(source tag, value, content seen)], epoch, outputs) appended by every run()
 HOOK = [None]  # called as HOOK[0](tag, target) when an algorithm has loaded its inputs and not yet stored
 FAIL = {}      # (tag, target) -> how the next run of that unit ends, written by the harness
+SUBWRITES = []  # (tag, sub-target, contents) stored through Dataset.retarget()
 
 def fail(tag, target):
     import dawgie
@@ -119,6 +120,7 @@ class Base(dawgie.Algorithm):
     TAG = NAME = None
     VALUES = INPUTS = ()
     CHECKPOINT = False
+    RETARGET = None
     def __init__(self):
         dawgie.Algorithm.__init__(self)
         self._version_ = dawgie.VERSION(1, 0, 0)
@@ -165,6 +167,14 @@ class Base(dawgie.Algorithm):
             self._sv[vn] = V(ctl.content(self.TAG, k, vn, target, epoch, ins))
         outs.extend(self._sv[vn].x for vn in self.VALUES)
         ds.update()
+        if self.RETARGET and '(' not in target:
+            # the algorithm also files a result under a sub-target it creates itself
+            sub_ds = ds.retarget(self.RETARGET, [])
+            sub = sub_ds._tn()      # the name the database uses for the sub-target
+            for k, vn in enumerate(self.VALUES):
+                self._sv[vn] = V(ctl.content(self.TAG, k, vn, sub, epoch, ins))
+            ctl.SUBWRITES.append((self.TAG, sub, [self._sv[vn].x for vn in self.VALUES]))
+            sub_ds.update()
 '''
 
 ANZ_SRC = '''
@@ -213,6 +223,7 @@ class {cls}({base}):
     VALUES = {values!r}
     INPUTS = {inputs!r}
     CHECKPOINT = {checkpoint!r}
+    RETARGET = {retarget!r}
 '''
 
 BOT_SRC = '''
@@ -256,7 +267,7 @@ def write_engine(root, pkg, algs):
             ins = [(f"{pkg}.{algs[j]['task']}", cls_name(algs[j]), val, kind_of(algs[j])) for j, val in a['inputs']]
             src.append(ALG_SRC.format(cls=cls_name(a), tag=f"{a['task']}.{a['name']}", name=a['name'],
                                       values=list(a['values']), inputs=ins,
-                                      checkpoint=bool(a.get('checkpoint')),
+                                      checkpoint=bool(a.get('checkpoint')), retarget=a.get('retarget'),
                                       base='Base' if kind_of(a) == 'task' else 'ABase'))
         tk = [a for a in members if kind_of(a) == 'task']
         az = [a for a in members if kind_of(a) == 'analysis']
@@ -528,6 +539,9 @@ class World:
         self.outside = None      # why this history is outside the model (None: inside)
         if any(a.get('checkpoint') for a in algs):
             self.outside = 'an execution that stores more than once (check-pointing) is outside Model/Reprocess'
+        if any(a.get('retarget') for a in algs):
+            self.outside = 'sub-targets created while running (Dataset.retarget) are outside Model/Reprocess'
+        self.stored_contents = set()   # every content an algorithm handed to the store so far
         self.nodes = {}
         for r in S.ae.at:
             for n in r.iter():
@@ -670,6 +684,28 @@ class World:
             hand.dataReceived(raw)
         self.flying.discard(unit)
         self.handed.discard(unit)
+        # C02: results filed under a sub-target (Dataset.retarget) are reported under THAT target: every declared
+        # consumer of a value whose content was never stored before is pending for the sub-target afterwards
+        e0 = self._cur.get(unit)
+        if e0 is not None:
+            fresh0 = [c for c in e0[4] if c not in self.stored_contents]
+            self.stored_contents.update(e0[4])
+        while self.ctl.SUBWRITES:
+            stag, sub, contents = self.ctl.SUBWRITES.pop(0)
+            a = [x for x in self.algs if tag_of(x) == stag][0]
+            for vn, c in zip(a['values'], contents):
+                isnew = c not in self.stored_contents
+                self.stored_contents.add(c)
+                if not isnew:
+                    continue
+                for cons in self.consumers.get(f'{stag}.sv.{vn}', []):
+                    n = self.nodes[cons]
+                    if self.kinds[cons] == 'task' and sub not in n.get('todo') and sub not in n.get('doing'):
+                        self.flag('C02', 'e2e-consumer-not-scheduled',
+                                  f'{stag} stored a never-stored content of {vn} under the sub-target {sub} '
+                                  f'(Dataset.retarget) but its consumer {cons} is not pending for {sub}: todo '
+                                  f'{sorted(n.get("todo"))}')
+                    self.cause.add((cons, sub))
         # C03: the result is applied exactly once: one history entry for the unit, and it is no longer executing
         mine = [e for e in self.chronicle[n_hist:] if e['task'] == m.jobid and e['target'] == unit[1]]
         if raw and len(mine) != 1:
@@ -910,6 +946,16 @@ def aspect_shape():
             'bumps': [['demo.R', 'T1'], ['demo.R', 'T2'], ['demo.R', 'T1']]}
 
 
+def retarget_shape():
+    """B files a second result under a sub-target it creates (Dataset.retarget); C consumes B"""
+    algs = [
+        {'task': 'demo', 'name': 'R', 'values': ['r'], 'inputs': [], 'checkpoint': False},
+        {'task': 'demo', 'name': 'B', 'values': ['b'], 'inputs': [(0, 'r')], 'checkpoint': False, 'retarget': 'x'},
+        {'task': 'demo', 'name': 'C', 'values': ['c'], 'inputs': [(1, 'b')], 'checkpoint': False},
+    ]
+    return {'algs': algs, 'targets': ['T1'], 'bumps': [['demo.R', 'T1'], ['demo.R', 'T1']]}
+
+
 def gen_scenario(r, small=False, aspects=False):
     n = r.choice([3, 4, 4, 5] if small else [3, 4, 5, 6])
     tasks = r.sample(['ta', 'tb'], r.choice([1, 2]))
@@ -1104,6 +1150,7 @@ def run(ctx, res):
     scenarios += [aspect_shape(), dict(aspect_shape(), overlap=0.7, hold=0.4)]
     # values of more than 1 MiB that differ only at their very end (novelty is decided on the whole content)
     scenarios.append(dict(overlap_shape(), overlap=0, bulk=(1 << 20) + 4096))
+    scenarios.append(retarget_shape())
     for i in range(60 if thorough else 4):
         sc = gen_scenario(ra, small=not thorough, aspects=True)
         scenarios.append(dict(sc, overlap=0.5 if i % 2 else 0, hold=0.4 if i % 3 == 0 else 0))
